@@ -1,0 +1,341 @@
+//go:build verif
+
+package sqlc
+
+import (
+	"context"
+	"database/sql"
+	"encoding/json"
+	"errors"
+	"fmt"
+	"math/rand"
+	"reflect"
+	"strings"
+	"sync"
+	"testing"
+	"time"
+	"unsafe"
+
+	"github.com/alicebob/miniredis/v2"
+	"github.com/alicebob/miniredis/v2/server"
+	"github.com/gotid/god/internal/verifdrv"
+	"github.com/gotid/god/lib/logx"
+	"github.com/gotid/god/lib/mathx"
+	"github.com/gotid/god/lib/store/cache"
+	"github.com/gotid/god/lib/store/redis"
+	"github.com/gotid/god/lib/store/sqlx"
+	"github.com/gotid/god/lib/timex"
+)
+
+// ---- case format (shared with lib/store/cache/verif_driver_test.go) ----
+
+type verifOp struct {
+	Op   string  `json:"op"` // qrow | qidx | exec | del | set | adv | fault | corrupt
+	ID   int     `json:"id"`
+	Ix   int     `json:"ix"`
+	U    []int64 `json:"u"`    // jitter draws, u = U[i]/1024
+	W    []any   `json:"w"`    // ["put",id,ix,val] | ["del",id] | ["fail"]
+	Keys [][]any `json:"keys"` // [["pk",1],["ix",0]]
+	Key  []any   `json:"key"`
+	Val  []any   `json:"val"` // ["row",id,ix,val] | ["pk",id]
+	Dt   int     `json:"dt"`
+	G    bool    `json:"g"`
+	S    bool    `json:"s"`
+	D    bool    `json:"d"`
+	Gi   int     `json:"gi"`
+	TTL  int     `json:"ttl"`
+}
+
+type verifCase struct {
+	Level    string    `json:"level"` // sqlc
+	Expire   int       `json:"expire"`
+	NfExpire int       `json:"nfexpire"`
+	Ops      []verifOp `json:"ops"`
+}
+
+type verifRow struct {
+	ID  int `json:"id"`
+	Ix  int `json:"ix"`
+	Val int `json:"val"`
+}
+
+const (
+	verifNPK      = 4
+	verifNIX      = 3
+	verifFaultMsg = "VERIFFAULT injected"
+	verifDeviation = 0.05 // cache.expireDeviation (unexported there; tied to the statement by C06.Link)
+)
+
+// scripted rand.Source: Float64() of a rand.Rand over it (= float64(Int63()) / 2^63) yields U[i]/1024
+type verifSource struct {
+	vals []int64
+	i    int
+}
+
+func (s *verifSource) Int63() int64 {
+	v := int64(512)
+	if len(s.vals) > 0 {
+		if s.i < len(s.vals) {
+			v = s.vals[s.i]
+			s.i++
+		} else {
+			v = s.vals[len(s.vals)-1]
+		}
+	}
+	return v << 53
+}
+func (s *verifSource) Seed(int64) {}
+
+var (
+	verifOnce   sync.Once
+	verifSrv    *miniredis.Miniredis
+	verifMu     sync.Mutex
+	verifG, verifS, verifD bool
+	verifCaseNo int
+)
+
+func verifSetFaults(g, s, d bool) {
+	verifMu.Lock()
+	verifG, verifS, verifD = g, s, d
+	verifMu.Unlock()
+}
+
+func verifSetup() {
+	logx.Disable()
+	timex.VerifSetNow(time.Hour)
+	s, err := miniredis.Run()
+	if err != nil {
+		panic(err)
+	}
+	verifSrv = s
+	s.Server().SetPreHook(func(c *server.Peer, cmd string, args ...string) bool {
+		verifMu.Lock()
+		g, w, d := verifG, verifS, verifD
+		verifMu.Unlock()
+		switch strings.ToUpper(cmd) {
+		case "GET":
+			if g {
+				c.WriteError(verifFaultMsg)
+				return true
+			}
+		case "SET", "SETEX":
+			if w {
+				c.WriteError(verifFaultMsg)
+				return true
+			}
+		case "DEL":
+			if d {
+				c.WriteError(verifFaultMsg)
+				return true
+			}
+		}
+		return false
+	})
+}
+
+// verifScripted returns a copy of the cache node c whose jitter source is src
+// (field cache.node.unstableExpire is unexported and node is a value type).
+func verifScripted(c cache.Cache, src rand.Source) cache.Cache {
+	orig := reflect.ValueOf(c)
+	cp := reflect.New(orig.Type()).Elem()
+	cp.Set(orig)
+	f := cp.FieldByName("unstableExpire")
+	reflect.NewAt(f.Type(), unsafe.Pointer(f.UnsafeAddr())).Elem().Set(reflect.ValueOf(mathx.VerifNewUnstable(verifDeviation, src)))
+	return cp.Interface().(cache.Cache)
+}
+
+func verifErr(err error) string {
+	switch {
+	case err == nil:
+		return "ok"
+	case errors.Is(err, sql.ErrNoRows):
+		return "nf"
+	case strings.Contains(err.Error(), verifFaultMsg):
+		return "cerr"
+	case strings.Contains(err.Error(), "verif exec failure"):
+		return "execerr"
+	default:
+		return "err:" + err.Error()
+	}
+}
+
+func verifRunCase(c verifCase) (any, bool) {
+	verifOnce.Do(verifSetup)
+	verifCaseNo++
+	start := time.Now()
+	prefix := fmt.Sprintf("s%d:", verifCaseNo)
+	keyName := func(k []any) string { return fmt.Sprintf("%s%s:%d", prefix, k[0].(string), int(k[1].(float64))) }
+	var universe []string
+	for i := 0; i < verifNPK; i++ {
+		universe = append(universe, fmt.Sprintf("%spk:%d", prefix, i))
+	}
+	for i := 0; i < verifNIX; i++ {
+		universe = append(universe, fmt.Sprintf("%six:%d", prefix, i))
+	}
+	verifSrv.FlushAll()
+	verifSetFaults(false, false, false)
+	src := &verifSource{}
+	node := cache.NewNode(redis.New(verifSrv.Addr()), singleFlights, stats, sql.ErrNoRows,
+		cache.WithExpire(time.Duration(c.Expire)*time.Second), cache.WithNotFoundExpire(time.Duration(c.NfExpire)*time.Second))
+	cc := NewConnWithCache(nil, verifScripted(node, src))
+
+	db := map[int]verifRow{}
+	dbq := 0
+	ctx := context.Background()
+	keyer := func(primary any) string { return fmt.Sprintf("%spk:%v", prefix, primary) }
+	toID := func(primary any) int {
+		switch p := primary.(type) {
+		case int:
+			return p
+		case float64:
+			return int(p)
+		case json.Number:
+			n, _ := p.Int64()
+			return int(n)
+		}
+		return -1
+	}
+	var obs []any
+	armedLost := false
+	for _, op := range c.Ops {
+		timex.VerifAdvance(11 * time.Second) // empties the Redis breaker's window
+		src.vals, src.i = op.U, 0
+		o := map[string]any{}
+		switch op.Op {
+		case "qrow":
+			var row verifRow
+			err := cc.QueryRowCtx(ctx, &row, keyName([]any{"pk", float64(op.ID)}), func(ctx context.Context, conn sqlx.Conn, v any) error {
+				dbq++
+				got, ok := db[op.ID]
+				if !ok {
+					return sqlx.ErrNotFound
+				}
+				*v.(*verifRow) = got
+				return nil
+			})
+			o["r"] = verifErr(err)
+			if err == nil {
+				o["r"] = "row"
+				o["row"] = []int{row.ID, row.Ix, row.Val}
+			}
+		case "qidx":
+			var row verifRow
+			err := cc.QueryRowIndexCtx(ctx, &row, keyName([]any{"ix", float64(op.Ix)}), keyer,
+				func(ctx context.Context, conn sqlx.Conn, v any) (any, error) {
+					dbq++
+					for id := 0; id < 64; id++ { // smallest id first
+						if got, ok := db[id]; ok && got.Ix == op.Ix {
+							*v.(*verifRow) = got
+							return id, nil
+						}
+					}
+					return nil, sqlx.ErrNotFound
+				},
+				func(ctx context.Context, conn sqlx.Conn, v, primary any) error {
+					dbq++
+					got, ok := db[toID(primary)]
+					if !ok {
+						return sqlx.ErrNotFound
+					}
+					*v.(*verifRow) = got
+					return nil
+				})
+			o["r"] = verifErr(err)
+			if err == nil {
+				o["r"] = "row"
+				o["row"] = []int{row.ID, row.Ix, row.Val}
+			}
+		case "exec":
+			var ks []string
+			for _, k := range op.Keys {
+				ks = append(ks, keyName(k))
+			}
+			_, err := cc.ExecCtx(ctx, func(ctx context.Context, conn sqlx.Conn) (sql.Result, error) {
+				switch op.W[0].(string) {
+				case "put":
+					id := int(op.W[1].(float64))
+					db[id] = verifRow{ID: id, Ix: int(op.W[2].(float64)), Val: int(op.W[3].(float64))}
+				case "del":
+					delete(db, int(op.W[1].(float64)))
+				default:
+					return nil, errors.New("verif exec failure")
+				}
+				return nil, nil
+			}, ks...)
+			o["r"] = verifErr(err)
+		case "del":
+			var ks []string
+			for _, k := range op.Keys {
+				ks = append(ks, keyName(k))
+			}
+			o["r"] = verifErr(cc.DelCacheCtx(ctx, ks...))
+		case "set":
+			var val any
+			if op.Val[0].(string) == "row" {
+				val = verifRow{ID: int(op.Val[1].(float64)), Ix: int(op.Val[2].(float64)), Val: int(op.Val[3].(float64))}
+			} else {
+				val = int(op.Val[1].(float64))
+			}
+			o["r"] = verifErr(cc.SetCacheCtx(ctx, keyName(op.Key), val))
+		case "adv":
+			verifSrv.FastForward(time.Duration(op.Dt) * time.Second)
+			o["r"] = "ok"
+		case "fault":
+			verifSetFaults(op.G, op.S, op.D)
+			o["r"] = "ok"
+		case "corrupt":
+			k := keyName(op.Key)
+			verifSrv.Set(k, fmt.Sprintf("not-json-%d", op.Gi))
+			verifSrv.SetTTL(k, time.Duration(op.TTL)*time.Second)
+			o["r"] = "ok"
+		default:
+			o["r"] = "err:unknown op"
+		}
+		o["q"] = dbq
+		dump := [][]any{}
+		for ki, k := range universe {
+			if !verifSrv.Exists(k) {
+				continue
+			}
+			v, _ := verifSrv.Get(k)
+			dump = append(dump, []any{0, ki, v, int(verifSrv.TTL(k) / time.Second)})
+		}
+		o["dump"] = dump
+		obs = append(obs, o)
+		if (op.Op == "exec" || op.Op == "del") && verifDFault() {
+			armedLost = true
+		}
+	}
+	// The cleaner of package cache runs on its own real 1 s wheel, which this package cannot replace:
+	// a failed delete is retried 1-2 wall-clock seconds later. Cases last milliseconds; one that was
+	// slow enough for such a retry to fire inside it is run again.
+	slow := armedLost && time.Since(start) > 700*time.Millisecond
+	place := make([]int, verifNPK+verifNIX)
+	return map[string]any{"ops": obs, "place": place, "logs": [][]any{{}}, "tick": 0}, slow
+}
+
+func verifDFault() bool {
+	verifMu.Lock()
+	defer verifMu.Unlock()
+	return verifD
+}
+
+// TestVerifDriver drives CachedConn (QueryRow / QueryRowIndex / Exec / DelCache / SetCache) over a real
+// cache node on miniredis, a Go map as database with a query counter, scripted jitter and per-command
+// Redis faults.
+func TestVerifDriver(t *testing.T) {
+	verifdrv.Run(t, func(raw json.RawMessage) any {
+		var c verifCase
+		if err := json.Unmarshal(raw, &c); err != nil {
+			return map[string]any{"error": err.Error()}
+		}
+		var res any
+		for try := 0; try < 4; try++ {
+			var slow bool
+			if res, slow = verifRunCase(c); !slow {
+				break
+			}
+		}
+		return res
+	})
+}
